@@ -61,7 +61,9 @@ def compare_static(ctx, case, res, target):
         with open(path, "wb") as f:
             f.write(src)
         res.n += 1
-        p = cproc.cc(ctx, src, target, "plain", timeout=60)
+        # freed and fresh heap memory is filled with a non-zero pattern: an image byte that comes from memory the compiler
+        # never wrote shows up as a difference instead of an accidental zero
+        p = cproc.cc(ctx, src, target, "plain", timeout=60, env={"MALLOC_PERTURB_": "165"})
         elf, err = refcc.clang_obj(path, os.path.join(d, "s.o"), target, std="gnu2x", extra=refcc.target_flags(target) + ["-fno-data-sections"])
         if elf is None:
             res.discard.append("clang-rejects")
@@ -176,6 +178,7 @@ def leaf_dump(path, t):
 @st.composite
 def auto_cases(draw):
     g = initgen.G(draw)
+    g.auto = True
     objs = []
     body = []
     for i in range(draw(st.integers(1, 3))):
